@@ -479,6 +479,59 @@ Section Batcher.
   Definition brun (es : list bevent) : bstate * nat := fold_left bstep es (b_init, O).
 End Batcher.
 
+(* ---------------------------------------------------------------------------------------- *)
+(* specification of the error a completion callback must report (used by Properties.done_error_iff and   *)
+(* checked against the implementation's OnDone arguments by Harness.check_case)                           *)
+(* ---------------------------------------------------------------------------------------- *)
+(* which request a done object reports to *)
+Definition tgt (refs : list refcell) (d : dref) : option nat :=
+  match d with
+  | DReq i => Some i
+  | DRef k => match nth_error refs k with
+              | Some c => match rc_target c with DReq i => Some i | DRef _ => None end
+              | None => None
+              end
+  end.
+Definition hits (refs : list refcell) (d : dref) (i : nat) : bool :=
+  match tgt refs d with Some j => Nat.eqb j i | None => false end.
+(* a done list is attached to request i *)
+Definition attached (refs : list refcell) (ds : list dref) (i : nat) : bool := existsb (fun d => hits refs d i) ds.
+
+
+Section ErrSpec.
+  Context {R : Type}.
+  Variable msplit : R -> option R -> option (list R).
+  Variable sizeof : R -> Z.
+  Variable min_size : Z.
+  Notation bst := (@bstate R).
+
+  (* req.MergeSplit / currentBatch.req.MergeSplit returned an error *)
+  Definition ms_failed (st : bst) (r : R) : bool :=
+    match b_cur st with
+    | Some (cur, _) => match msplit cur (Some r) with None => true | Some _ => false end
+    | None => match msplit r None with None => true | Some _ => false end
+    end.
+
+  (* the specification: E i = "request i's MergeSplit failed, or the export of a batch whose done list was attached
+     to i returned an error" — computed from the events and the state they meet, never from rc_err / b_fired *)
+  Definition estep (x : bst * nat * (nat -> bool)) (e : @bevent R) : bst * nat * (nat -> bool) :=
+    let '(st, n, E) := x in
+    (bstep msplit sizeof min_size (st, n) e,
+     match e with
+     | EConsume r => fun i => E i || (Nat.eqb i n && ms_failed st r)
+     | EResult b err =>
+       match take_flying b (b_flying st) with
+       | Some (ds, _) => fun i => E i || (err && attached (b_refs st) ds i)
+       | None => E
+       end
+     | _ => E
+     end).
+
+  Definition erun (es : list (@bevent R)) : bst * nat * (nat -> bool) :=
+    fold_left estep es (b_init, O, fun _ => false).
+
+End ErrSpec.
+
 (* disabled_batcher.go: Consume = done.OnDone(consumeFunc(ctx, req)): one batch per request, done fired
    with that batch's result.  (Model: the request is exported as it is.) *)
 Definition disabled_consume {R} (export : R -> bool) (r : R) : R * bool := (r, export r).
